@@ -142,11 +142,19 @@ class Gen:
                 self.flags[n['id']].add(flag)
             self.budget -= 0
             return n
-        x = plain('case')
+        x = plain()
         x['plan']['fail'] = ['ALWAYS', rng.choice(['E1', 'E2', 'EOther', 'ERt', 'EKey', 'EKey', 'EKey'])]
         ins = list(self.p['inputs'])
         x['plan']['fail_when'] = sorted(rng.sample(ins, rng.randint(1, len(ins) - 1)))
         self.finish(x)
+        if rng.random() < 0.5:
+            self.flags[x['id']].add('case')
+            case_node = x['id']
+        else:
+            # the selected case only DEPENDS on X: its sub-pipeline finds X's failure stored by the candidate
+            kx = plain('case', x['id'])
+            self.finish(kx)
+            case_node = kx['id']
         if rng.random() < 0.5:
             a = plain('cand', x['id'])
             self.finish(a)
@@ -165,7 +173,7 @@ class Gen:
         self.finish(y)
         self.sw += 1
         k = len(consumer['params'])
-        marks = [[f'lf{k}', ['oneof', [first, b['id']]]], [f'lf{k + 1}', ['sw', f'sw{self.sw}', d['id'], [['L0', x['id']], ['L1', y['id']]]]]]
+        marks = [[f'lf{k}', ['oneof', [first, b['id']]]], [f'lf{k + 1}', ['sw', f'sw{self.sw}', d['id'], [['L0', case_node], ['L1', y['id']]]]]]
         if rng.random() < 0.5:
             marks.reverse()
         consumer['params'].extend(marks)
@@ -255,6 +263,15 @@ class Gen:
         self.finish(a)
         b = mk([['a', ['in', st['id']]]], 'private_rec')
         self.finish(b)
+        slow_a = a
+        if rng.random() < 0.6:
+            # chains of two nodes: the sequential launch loop of the re-iteration blocks on the second node of the slow
+            # chain while the second node of the other chain is re-armed but not launched yet
+            a2 = mk([['a', ['in', a['id']]]], 'private_rec')
+            self.finish(a2)
+            b2 = mk([['a', ['in', b['id']]]], 'private_rec')
+            self.finish(b2)
+            a, b = a2, b2
         params = [['a', ['in', a['id']]], ['b', ['in', b['id']]]]
         if rng.random() < 0.5:
             params.reverse()
@@ -271,7 +288,7 @@ class Gen:
         if rng.random() < 0.5:
             marks.reverse()
         consumer['params'].extend(marks)
-        self.slow_hint.extend([a['id'], f['id']])
+        self.slow_hint.extend([slow_a['id'], f['id']])
 
     def shared_switch_shape(self, consumer, visible):
         """consumer(u: OneOf([A(s: W), B]), v: W) with one NAMED switch W = SwitchCase(D, [L0: K(a: Input(X)), L1: Y]) and
@@ -786,7 +803,9 @@ class Gen:
                     for lab in labs:
                         c = self.new_node()
                         self.flags[c['id']].update({'private_rec', 'case'})
-                        c['params'].append(['a', ['in', rng.choice(sub)]])
+                        # a case may also sit OUTSIDE the subgraph (it does not depend on the start node): its result
+                        # of the first pass stays visible while the other cases are executed again
+                        c['params'].append(['a', ['in', rng.choice(sub) if rng.random() < 0.7 else 'N0']])
                         self.finish(c)
                         cs.append([lab, c['id']])
                     self.sw += 1
@@ -840,10 +859,20 @@ class Gen:
         rng = self.rng
         inp = self.new_node(plain_params=['x'])
         inp['mode'] = rng.choice(self.p['modes'])
+        extra = {}
+        if rng.random() < self.p.get('p_extra_inputs', 0.2):
+            # the caller passes further input_kwargs (None / falsy values included); some are declared parameters of
+            # the input node, the others reach its **kwargs catch-all: the node gets exactly the caller's dict
+            for name in rng.sample(['y', 'z', 'opt', 'limit'], rng.randint(1, 3)):
+                extra[name] = rng.choice([None, None, None, 0, '', False, [], 'v', 7])
+                if rng.random() < 0.6:
+                    inp['plain_params'].append(name)
         self.finish(inp)
         self.budget += 1
         out = self.make(['N0'], self.p['max_depth'])
         prog = {'nodes': self.nodes, 'order': self.order, 'input': 'N0', 'output': out}
+        if extra:
+            prog['extra_inputs'] = extra
         if self.slow_hint:
             prog['hints'] = {'slow': list(self.slow_hint)}
         return prog
